@@ -110,14 +110,17 @@ Theorem C12_capacity : forall (o : opts) (kd : kind) (csd : list N) (tim : timin
   (exists s', num_bytes_inner card card_spi o s = (Ok (spec_capacity_bytes csd), s') /\ Ready o kd csd tim s' mem).
 Proof. exact capacity_correct. Qed.
 
-(* C12_histories: any sequence of in-range public calls (reads, writes, capacity queries,
-   mark_card_uninit, get_card_type), starting from power-up: every call returns Ok with the value the
-   specification `spec_step` gives, and the card's memory at the end is the specification's *)
+(* C12_histories: any sequence of public calls (reads, writes, capacity queries, mark_card_uninit,
+   get_card_type), starting from power-up.  `legal_call`: the transfer lies inside the card
+   (`in_range`: first block below the capacity, last block not beyond it, 512-byte blocks) or starts at
+   or beyond the capacity (any u32 block number; the card rejects the command).  Every call returns
+   what the specification says - `spec_outcome`: Ok with the value of `spec_step`, or ReadError /
+   WriteError for a rejected call - and the card's memory at the end is the specification's. *)
 Theorem C12_histories : forall (o : opts) (kd : kind) (csd : list N) (tim : timing),
   legal_timing tim -> addressable kd csd -> is_csd csd -> CSD_STRUCTURE csd = 0 \/ CSD_STRUCTURE csd = 1 ->
-  forall (mem0 : N -> list N) (cs : list api_call), mem_ok mem0 -> Forall (in_range csd) cs ->
+  forall (mem0 : N -> list N) (cs : list api_call), mem_ok mem0 -> Forall (legal_call csd) cs ->
   exists s', run_calls card card_spi o cs [] (init_st card (power_on kd csd tim mem0)) =
-               (rev (map Ok (spec_values kd csd mem0 cs)), s') /\
+               (rev (spec_values kd csd mem0 cs), s') /\
              c_mem (dev s') = spec_mem kd csd mem0 cs /\
              accept (rev (tr s')) = true.
 Proof. exact legal_histories. Qed.
@@ -129,7 +132,7 @@ Example C12_hypotheses_satisfiable :
                 t_busy_c := fun _ => 1%nat; t_init := fun _ => 2%nat |} in
   legal_timing tim /\ addressable V1SC csd /\ is_csd csd /\ CSD_STRUCTURE csd = 0 /\
   spec_capacity_blocks csd = 32 /\ mem_ok (fun _ => repeat 0 512) /\
-  Forall (in_range csd) [CRead 1 31; CWrite [repeat 7 512] 0; CRead 2 0; CNumBlocks; CMarkUninit; CGetType].
+  Forall (legal_call csd) [CRead 1 31; CWrite [repeat 7 512] 0; CRead 2 0; CNumBlocks; CMarkUninit; CGetType; CRead 1 32; CWrite [[]] 4000000000].
 Proof.
   cbv zeta. split; [|split; [|split; [|split; [|split; [|split]]]]].
   - intros k. cbn. unfold READ_RETRIES, WRITE_RETRIES, COMMAND_RETRIES. repeat split; lia.
@@ -140,7 +143,8 @@ Proof.
   - intros b. split; [apply repeat_length|]. unfold bytes. apply Forall_forall. intros x Hx.
     apply repeat_spec in Hx. subst. reflexivity.
   - assert (NB : spec_capacity_blocks [0;38;0;50;95;89;128;1;237;216;79;255;210;64;64;91] = 32) by (vm_compute; reflexivity).
-    repeat constructor; cbn [in_range]; rewrite ?NB; try reflexivity; try (vm_compute; discriminate);
+    repeat constructor; unfold legal_call; cbn [rejected idx_of in_range]; rewrite ?NB; cbn [N.ltb N.compare negb]; cbn [in_range]; rewrite ?NB;
+      try reflexivity; try (vm_compute; discriminate);
       try apply repeat_length;
       try (unfold bytes; apply Forall_forall; intros x Hx; apply repeat_spec in Hx; subst; reflexivity).
 Qed.
